@@ -102,6 +102,16 @@ def cases(tier, seed):
                               (("flat", "f", G),)), "an"))
         out.append(("build", ("query", "setof", (X, ("var", "f")), ("cmp", "eq", ("var", "f"), A(X, "a")),
                               (("dom", "x"), ("flat", "f", G))), "an"))
+    # user objects whose special methods log: as operands of comparisons / membership tests, as conclusion values, as a
+    # single-instance domain, as a user-defined (re-iterable) container
+    for kind in ("spy", "falsy_spy", "bag"):
+        S_ = ("spylit", kind)
+        # (a user object with its own __eq__ as the LEFT operand is compared by Python itself, before krrood sees it)
+        for c in (("cmp", "eq", A(X, "nxt"), S_), ("cmp", "ne", A(X, "nxt"), S_), ("in", A(X, "a"), S_), ("contains", S_, A(X, "a")),
+                  ("and", ("cmp", "eq", A(X, "b"), L(1)), ("cmp", "eq", A(X, "nxt"), S_)), ("not", ("cmp", "eq", A(X, "nxt"), S_))):
+            out.append(("build", c01.mkq("entity", (X,), c), "an"))
+        for what in ("add_value", "set_value", "let_single_instance", "let_container", "flatten_container"):
+            out.append(("build_special", what, kind))
     for n in range(1, BOUNDS[tier]["rule_branches"] + 1):
         for b in c08.blocks(n, "root"):
             if n == 1 and not b[0]:
@@ -176,12 +186,101 @@ def build_genlit(q, env):
         return Custom(vals)
 
     def T(t):
+        if isinstance(t, tuple) and t and t[0] == "spylit":
+            return ("rawlit", make_spy(t[1]))
         if isinstance(t, tuple) and t and t[0] == "genlit":
             return ("rawlit", one_shot(t[1], t[2] if len(t) > 2 else "gen"))
         if isinstance(t, tuple):
             return tuple(T(e) for e in t)
         return t
     return T(q)
+
+
+def make_spy(kind):
+    """user data whose special methods log while the log is armed"""
+    def note(what):
+        if W._ARMED[0]:
+            W.LOG.append(("special-method", kind, what))
+
+    class Spy:
+        def __bool__(self):
+            note("__bool__")
+            return kind != "falsy_spy"
+
+        def __repr__(self):
+            note("__repr__")
+            return "<spy>"
+
+        def __str__(self):
+            note("__str__")
+            return "<spy>"
+
+        def __eq__(self, other):
+            note("__eq__")
+            return self is other
+
+        def __hash__(self):
+            note("__hash__")
+            return 7
+
+    class Bag(Spy):
+        """a user-defined container that can be iterated any number of times (no __next__)"""
+
+        def __iter__(self):
+            for i in (1, 2):
+                note("__iter__ produced an element")
+                yield i
+
+        def __len__(self):
+            note("__len__")
+            return 2
+
+        def __contains__(self, item):
+            note("__contains__")
+            return item in (1, 2)
+    return Bag() if kind == "bag" else Spy()
+
+
+def run_build_special(case, res):
+    from krrood.entity_query_language.entity import entity, let, inference, flatten
+    from krrood.entity_query_language.quantify_entity import an
+    from krrood.entity_query_language.conclusion import Add, Set
+    _, what, kind = case
+    env = Env()
+    label = f"{what} with a user object of kind {kind}"
+    spy = make_spy(kind)
+    arm()
+    try:
+        x = let(W.Item, env.wrap("x", env.items), name="x")
+        if what in ("add_value", "set_value"):
+            v = let(W.Item, env.wrap("y", env.items), name="v")
+            q = an(entity(v, x.a > 0))
+            with q:
+                (Add if what == "add_value" else Set)(v, spy)
+        elif what == "let_single_instance":
+            let(type(spy), spy)
+        elif what == "let_container":
+            if kind != "bag":
+                disarm()
+                return
+            y = let(int, spy, name="y")
+            an(entity(y, y > 0))
+        elif what == "flatten_container":
+            if kind != "bag":
+                disarm()
+                return
+            f = flatten(spy)
+            an(entity(f, f > 0))
+    except Exception as e:
+        disarm()
+        res.failures.append(Failure("crash-at-construction", f"{label}: {type(e).__name__}: {e}"))
+        return
+    ev = disarm()
+    res.features = {"build:special"}
+    res.nontrivial_key = case
+    res.outcome_key = ("special", what, kind, bool(ev))
+    if ev:
+        res.failures.append(Failure("evaluated-at-construction", f"{label}: building produced events {ev[:6]}"))
 
 
 class _LoggingList(list):
@@ -196,7 +295,7 @@ def run_build(case, res):
     _, q, quant = case
     from krrood.entity_query_language.result_quantification_constraint import Exactly
     env = Env()
-    label = fol.show_query(q) if "genlit" not in repr(q) else repr(q[3])
+    label = fol.show_query(q) if "genlit" not in repr(q) and "spylit" not in repr(q) else repr(q[3])
     arm()
     try:
         qq = build_genlit(q, env)
@@ -373,6 +472,8 @@ def run_case(case):
             run_build(case, res)
         elif case[0] == "build_rule":
             run_build_rule(case, res)
+        elif case[0] == "build_special":
+            run_build_special(case, res)
         else:
             run_consume(case, res)
     finally:
